@@ -27,6 +27,8 @@ RULE = ('constructors classical / AIR / SA (+energy smoothing, symmetry flags he
         'root-node / pairwise on Poisson, anisotropic, graph Laplacian, elasticity BSR, complex, nonsymmetric inputs in '
         'CSR/BSR/CSC/COO/dense; one unconstrained build then every (max_levels in 1..6, max_coarse in a grid) rebuild: '
         'level sizes == Hierarchy.build prediction; structural oracle per hierarchy.  Non-trivial: >= 2 levels.')
+RULE += (' '
+         'Also: inputs rescaled by 2^-60 / 2^60 (Galerkin tolerance relative to |R||A||P|), CLJP / PMISc / RS with a strength threshold that leaves no strong connection (all-C / all-F stalls), diagonal input, MultilevelSolver built from levels without R (complex, real, BSR).')
 TRUSTED = ['SciPy sparse products and format conversions', 'determinism of the constructors under a fixed NumPy seed']
 PARTIAL = ['Galerkin product, R = P^H, finest values: oracle only', 'strict decrease refuted for SA / root-node / pairwise (F6)']
 REFUTED = ['C04_sizes_decrease_refuted']
